@@ -30,6 +30,8 @@ import (
 	"github.com/aws/aws-sdk-go-v2/aws"
 	"github.com/aws/aws-sdk-go-v2/credentials"
 	"github.com/aws/aws-sdk-go-v2/service/s3"
+	"github.com/tailscale/setec/audit"
+	"github.com/tailscale/setec/db"
 	"github.com/tailscale/setec/server"
 	"github.com/tailscale/setec/types/api"
 	"github.com/tink-crypto/tink-go/v2/tink"
@@ -52,6 +54,10 @@ type c17Input struct {
 	Fails  []uint64 `json:"fails,omitempty"`  // legacy: instants of such puts whose save fails (state directory unreachable)
 	Ops    []c17Op  `json:"ops,omitempty"`    // the clients' mutating calls; whether one is a write is the MODEL's verdict
 	Reads  []uint64 `json:"reads,omitempty"` // instants of client reads (list, get, info)
+	Reopen bool     `json:"reopen,omitempty"` // a restart: the database file exists already when this lifetime's db.Open runs
+	Prior  []c17Op  `json:"prior,omitempty"`  // with Reopen: the calls of the earlier lifetime (instants ignored)
+	Wiring string   `json:"wiring,omitempty"` // "" = the loop through the verif hook in virtual time; "db" / "path" = the task as started by the real server.New (Config.DB / Config.DBPath+Key+AuditLog), observed in REAL time
+	Until  uint64   `json:"until,omitempty"`  // wiring: real ms until which the object store is watched
 	Script []c17Upl `json:"script"`
 	Cancel uint64   `json:"cancel"` // instant (ms) the context is cancelled
 }
@@ -268,6 +274,12 @@ func runC17Scenario(t *testing.T, work string, idx int, in c17Input) c17Obs {
 		env.sink.mu.Lock()
 		env.sink.quiet = true
 		env.sink.mu.Unlock()
+		if in.Reopen {
+			if err := c17Restart(env, in.Prior); err != nil {
+				obs.Note = "cannot reopen the database: " + err.Error()
+				return
+			}
+		}
 		wseq := 0
 		st := &c17Store{env: env, start: time.Now(), script: in.Script, vers: map[[32]byte]uint64{}, bodies: map[[32]byte]uint64{}, wseq: &wseq}
 		st.recordVersion()
@@ -343,6 +355,39 @@ func runC17Scenario(t *testing.T, work string, idx int, in c17Input) c17Obs {
 
 func realNow() int64 { return time.Now().UnixNano() }
 
+// c17Restart: the earlier lifetime (its calls on the first handle), then that handle is dropped and the
+// existing file is opened again with db.Open, as a restarted process does.
+func c17Restart(env *dbEnv, prior []c17Op) error {
+	tmp := &c17Store{env: env, vers: map[[32]byte]uint64{}, bodies: map[[32]byte]uint64{}}
+	for _, op := range prior {
+		tmp.dbOp(op)
+	}
+	d, err := db.Open(env.path, env.kek, audit.New(env.sink))
+	if err != nil {
+		return err
+	}
+	env.d = d
+	return nil
+}
+
+func coqEvs(ops []c17Op) string {
+	evs := make([]string, len(ops))
+	for i, op := range ops {
+		n := coqBytes([]byte(op.Name))
+		switch op.Kind {
+		case "put":
+			evs[i] = fmt.Sprintf("EPut %d %s %s %d", op.T, coqBool(!op.Fail), n, op.Val)
+		case "activate":
+			evs[i] = fmt.Sprintf("EAct %d %s %s %d", op.T, coqBool(!op.Fail), n, op.Ver)
+		case "delver":
+			evs[i] = fmt.Sprintf("EDelV %d %s %s %d", op.T, coqBool(!op.Fail), n, op.Ver)
+		default:
+			evs[i] = fmt.Sprintf("EDel %d %s %s", op.T, coqBool(!op.Fail), n)
+		}
+	}
+	return coqList(evs)
+}
+
 // ---- Gallina ----
 
 func coqC17(in c17Input, obs c17Obs) string {
@@ -360,22 +405,15 @@ func coqC17(in c17Input, obs c17Obs) string {
 		}
 		ups[i] = fmt.Sprintf("(%d,%d,%s)", u.T, g, coqBool(u.OK))
 	}
-	ops := in.allOps()
-	evs := make([]string, len(ops))
-	for i, op := range ops {
-		n := coqBytes([]byte(op.Name))
-		switch op.Kind {
-		case "put":
-			evs[i] = fmt.Sprintf("EPut %d %s %s %d", op.T, coqBool(!op.Fail), n, op.Val)
-		case "activate":
-			evs[i] = fmt.Sprintf("EAct %d %s %s %d", op.T, coqBool(!op.Fail), n, op.Ver)
-		case "delver":
-			evs[i] = fmt.Sprintf("EDelV %d %s %s %d", op.T, coqBool(!op.Fail), n, op.Ver)
-		default:
-			evs[i] = fmt.Sprintf("EDel %d %s %s", op.T, coqBool(!op.Fail), n)
-		}
+	prior := "[]"
+	if in.Reopen {
+		prior = coqEvs(in.Prior)
 	}
-	return fmt.Sprintf("Sc %s %s %s %d %s %s %s %d %d %d", coqList(evs), coqNList(in.Reads), coqList(sc), in.Cancel,
+	if in.Wiring != "" {
+		return fmt.Sprintf("ScW %s %s %s %d %s %s %d %d", prior, coqEvs(in.allOps()), coqNList(in.Reads), in.Cancel,
+			coqList(ups), coqNList(bids), obs.FinalGen, obs.FinalBid)
+	}
+	return fmt.Sprintf("Sc %s %s %s %s %d %s %s %s %d %d %d", prior, coqEvs(in.allOps()), coqNList(in.Reads), coqList(sc), in.Cancel,
 		coqList(ups), coqNList(bids), coqOpt(coqN(obs.Exit), obs.Exited), obs.FinalGen, obs.Racing, obs.FinalBid)
 }
 
@@ -415,6 +453,19 @@ func c17Record(in c17Input, obs c17Obs) Record {
 	if nfail > 0 {
 		tags["has-failed-write"] = true
 	}
+	switch {
+	case in.Reopen && len(ops) == 0:
+		tags["lifetime:restart-existing-file,no-call-in-this-lifetime"] = true
+	case in.Reopen:
+		tags["lifetime:restart-existing-file,calls-later"] = true
+	default:
+		tags["lifetime:fresh-file"] = true
+	}
+	if in.Wiring != "" {
+		tags["started-by:server.New("+in.Wiring+"),real-time"] = true
+	} else {
+		tags["started-by:verif-hook,virtual-time"] = true
+	}
 	if len(in.Reads) > 0 {
 		tags["has-reads"] = true
 	}
@@ -427,9 +478,9 @@ func c17Record(in c17Input, obs c17Obs) Record {
 	_ = inflight
 	kb, _ := json.Marshal(in)
 	rec := Record{Kind: "scenario", Input: in, Obs: obs, Key: string(kb), Tags: sortedKeys(tags),
-		Nontrivial: (len(obs.Uploads) >= 3 && len(ops) >= 2) || (nfail >= 2 && len(obs.Uploads) >= 1), Coq: coqC17(in, obs)}
+		Nontrivial: (len(obs.Uploads) >= 3 && len(ops) >= 2) || (nfail >= 2 && len(obs.Uploads) >= 1) || in.Reopen || in.Wiring != "", Coq: coqC17(in, obs)}
 	for _, u := range obs.Uploads {
-		if u.Bucket != "backups" && !strings.Contains(u.Key, "backups") {
+		if in.Wiring == "" && u.Bucket != "backups" && !strings.Contains(u.Key, "backups") {
 			rec.Direct = &DirectVerdict{OK: false, What: fmt.Sprintf("upload went to %q %q, not to the configured bucket", u.Bucket, u.Key)}
 		}
 	}
@@ -452,6 +503,16 @@ func genC17(seed uint64, i int) c17Input {
 		horizon = uint64(1 + r.IntN(200))
 	}
 	sh := newC17Shadow()
+	restartIdle := false
+	if r.IntN(4) == 0 { // a restart: an earlier lifetime left the file
+		in.Reopen = true
+		for k := r.IntN(7); k > 0; k-- {
+			op := sh.gen(r, false)
+			sh.apply(op)
+			in.Prior = append(in.Prior, op)
+		}
+		restartIdle = r.IntN(5) < 2 // and in this lifetime nobody calls
+	}
 	lastT := uint64(0)
 	t := uint64(0)
 	nw := r.IntN(12)
@@ -460,6 +521,9 @@ func genC17(seed uint64, i int) c17Input {
 	}
 	if in.Kind == "failed-writes" {
 		nw = 6 + r.IntN(14)
+	}
+	if restartIdle {
+		nw = 0
 	}
 	for k := 0; k < nw; k++ {
 		var gap uint64
@@ -503,7 +567,7 @@ func genC17(seed uint64, i int) c17Input {
 		}
 	}
 	// often the LAST change is not a put: a delete-version, an activate or a delete, then quiet
-	if r.IntN(2) == 0 && t+400 < horizon {
+	if !restartIdle && r.IntN(2) == 0 && t+400 < horizon {
 		op := sh.gen(r, true)
 		op.T = (t+1+uint64(r.IntN(100)))*1000 + 500
 		if op.T > lastT {
@@ -716,6 +780,29 @@ func runC17(o Opts) {
 			inputs = append(inputs, genC17(o.Seed, i))
 		}
 	}
+	// the scenarios through the real server.New run in real time, in this process, while the child works
+	// through the virtual-time ones
+	if o.Replay == "" && os.Getenv("VERIF_DEV_SKIP_REALTIME") == "" { // (development aid only; bin/check never sets it)
+		inputs = append(inputs, c17WiringFamily(o.Seed)...)
+	}
+	wireDone := make(chan []Record, 1)
+	{
+		var wire []c17Input
+		var rest []c17Input
+		nc := 0
+		for i, in := range inputs {
+			if in.Wiring != "" {
+				wire = append(wire, in)
+			} else {
+				rest = append(rest, in)
+				if i < corpusN {
+					nc++
+				}
+			}
+		}
+		inputs, corpusN = rest, nc
+		go func() { wireDone <- runC17Wiring(o.Work, wire) }()
+	}
 	inFile := filepath.Join(o.Work, "c17_inputs.jsonl")
 	{
 		f, err := os.Create(inFile)
@@ -794,6 +881,10 @@ func runC17(o Opts) {
 		from = next + 1
 	}
 	os.Remove(partFile)
+	for _, rec := range <-wireDone {
+		rec.ID = out.n
+		out.Emit(rec)
+	}
 	// self-test: alter one observable of a real scenario
 	for k, rec := range self {
 		in := rec.Input.(c17Input)
